@@ -10,6 +10,27 @@ BASELINE = ("cd /repo && /venv/bin/python -m pytest -ra -q -p no:cacheprovider -
 
 # id -> (category, technique, level text, level note, design ref)
 CHECKS = {
+    "C01": ("exploration",
+            "Hypothesis-generated documents x writer options x reader modes x entry points; round-trip oracle "
+            "on a typed snapshot, independent vocabulary check (xml.etree) and an independent foreign emitter",
+            "Generated documents cover every dtype, value shape, text class, optional attribute and "
+            "cardinality shape the property lists; the written XML is checked against a hard-coded odML 1.1 "
+            "vocabulary table with a parser independent of the library, loaded back through strict and "
+            "lenient readers at every entry point and compared on a typed snapshot after the one permitted "
+            "normalisation (whitespace trimming); an independent emitter plays 'another tool'; text XML "
+            "cannot hold must make the writer raise. Sampling only.",
+            "lxml and xml.etree are trusted as XML parsers; one open known finding (uncertainty re-typed to "
+            "text, pinned by the repository's tests) is absorbed by a matcher on the exact attribute and shape.",
+            "DESIGN.md section 5, C01"),
+    "C02": ("exploration",
+            "Hypothesis-generated documents x {JSON, YAML} x entry points; round-trip, layout (plain json/yaml "
+            "parse), foreign-layout and JSON/YAML/XML differential oracles",
+            "Same document generator as C01 plus look-alike strings and falsy attributes; no trimming is "
+            "granted; the written text is parsed with json/yaml directly and checked against a hard-coded key "
+            "table; structures from an independent emitter must load to the document they describe; JSON-, "
+            "YAML- and XML-loaded documents are compared with each other. Sampling only.",
+            "PyYAML and json are trusted; the XML side of the differential inherits known finding C01-F1.",
+            "DESIGN.md section 5, C02"),
     "C03": ("exploration",
             "Hypothesis-generated editing histories (model-based, targeted failing pre-states) with the tree "
             "well-formedness invariant evaluated after every step",
